@@ -197,6 +197,7 @@ def col_case(inp, op, model_term, spec_term, res, args_repr, py_agree=True, triv
             f"[a; b; c; s] => [a; b && {cq_bool(py_agree)}; c && {monitor_term}; s] | l => l end)")
     meta = base_meta(inp, impl_raised=raised, **(extra_meta or {}))
     return {
+        "_result": res[1] if (res[0] == "ok" and isinstance(res[1], NEA)) else None,
         "stream": "arrayops", "op": op, "term": term,
         "input": dict(input_repr(inp), args=args_repr),
         "impl_repr": ("raised " + res[1]) if raised else {"valid": lg2["valid"], "cols": [[[repr(x) for x in l] for l in c] for c in lg2["cols"]]},
